@@ -203,6 +203,9 @@ pub struct ExecOpts {
     /// only probe every n-th write
     pub crash_every: usize,
     pub max_steps: usize,
+    /// C03 / C04: after the execution the callers wind down like well-behaved callers do: every block a thread
+    /// still holds is freed, then the reservations are drained (sequential `sc` events)
+    pub epilogue: bool,
 }
 
 pub fn crash_probe(w: &World, widx: usize, t: usize) -> Value {
@@ -322,10 +325,12 @@ pub fn execute(scn: &Scenario, strat: &mut Strategy, opts: &ExecOpts, out_setup:
     let mut solo_steps = 0usize;
     let mut solo_active = matches!(strat, Strategy::Solo(..));
     let alloc = w.a();
+    let mut final_helds: Vec<Held> = vec![vec![]; nthreads];
     std::thread::scope(|s| {
+        let mut handles = vec![];
         for (t, prog) in scn.threads.iter().enumerate() {
             let mut held = std::mem::take(&mut helds[t]);
-            s.spawn(move || {
+            handles.push(s.spawn(move || {
                 hook::set_tid(t);
                 hook::set_mode(hook::SCHED);
                 for op in prog {
@@ -366,7 +371,8 @@ pub fn execute(scn: &Scenario, strat: &mut Strategy, opts: &ExecOpts, out_setup:
                 }
                 hook::set_mode(hook::OFF);
                 hook::finish();
-            });
+                held
+            }));
         }
         // controller
         let mut last: Option<usize> = None;
@@ -438,6 +444,11 @@ pub fn execute(scn: &Scenario, strat: &mut Strategy, opts: &ExecOpts, out_setup:
             last = Some(chosen);
             hook::grant(chosen);
         }
+        for (t, h) in handles.into_iter().enumerate() {
+            if let Ok(held) = h.join() {
+                final_helds[t] = held;
+            }
+        }
     });
     hook::rec_set_on_write(None);
     let mut log = hook::rec_take();
@@ -459,7 +470,28 @@ pub fn execute(scn: &Scenario, strat: &mut Strategy, opts: &ExecOpts, out_setup:
     hook::set_mode(hook::OFF);
     let obs = w.obs(true);
     log.push(Rec::Ev(json!({"ev":"obs","obs":obs})));
-    if opts.probe && !runaway {
+    let panicked = log.iter().any(|r| matches!(r, Rec::Ev(v) if v["ev"] == "ret" && v["res"] == "panic"));
+    if opts.epilogue && !runaway && !panicked {
+        // the callers wind down: frees of everything still held (through slot 0 of class 0 if it exists), then a drain
+        let slot = if w.classes.iter().any(|c| c.0 == 0 && c.1 > 0) { Some(0) } else { None };
+        let mut ops = vec![];
+        for (t, held) in final_helds.iter().enumerate() {
+            for b in held.iter().flatten() {
+                ops.push(Op::Put(b.0, b.1, 0, if t % 2 == 0 { slot } else { None }));
+            }
+        }
+        ops.push(Op::Drain);
+        for op in ops {
+            let res = exec(w.a(), &op);
+            let stop = res["res"] == "panic";
+            let obs = w.obs(false);
+            log.push(Rec::Ev(merge(merge(op.to_json(), res), json!({"ev":"sc","obs":obs,"epilogue":1}))));
+            if stop {
+                break;
+            }
+        }
+    }
+    if opts.probe && !runaway && !panicked {
         // C10 on the quiescent state this interleaving reached: drain, then a base-order allocation and a
         // targeted allocation of a frame that is free right now
         let mut probes = vec![Op::Drain, Op::Get(0, 0, None, None)];
@@ -725,7 +757,7 @@ impl<'a> Explore<'a> {
 
     /// C21: at every scheduling point of the given base schedule, run each in-flight call alone
     pub fn solo_points(&mut self, base: &[Step], bound_steps: usize, stride: usize) -> usize {
-        let opts = ExecOpts { probe: false, keep_ops: false, crash: false, crash_every: 1, max_steps: base.len() + bound_steps + 64 };
+        let opts = ExecOpts { probe: false, keep_ops: false, crash: false, crash_every: 1, max_steps: base.len() + bound_steps + 64, epilogue: false };
         let chosen: Vec<usize> = base.iter().map(|s| s.chosen).collect();
         let mut n = 0;
         let mut p = 0;
